@@ -568,3 +568,84 @@ func SkippedInLoop(in ssa.Instruction) []Witness {
 	}
 	return out
 }
+
+// FlagEdges summarises helpers that report a decision through a boolean result
+// next to other results (`done, err := c.adopt(t); if done {...}`): for every
+// If of fn that tests such a result of a static same-package callee h, the
+// edge on which the flag has the value v is returned when every return of h
+// that yields the constant v satisfies holds (and h has no return whose flag is
+// not a constant). The caller states in holds what it needs to know about the
+// paths of h that end there.
+func FlagEdges(fn *ssa.Function, holds func(h *ssa.Function, ret *ssa.Return) bool) []Edge {
+	return FlagEdgesOf(fn, nil, holds)
+}
+
+// FlagEdgesOf is FlagEdges restricted to the flags of one call (nil: all calls).
+func FlagEdgesOf(fn *ssa.Function, only ssa.CallInstruction, holds func(h *ssa.Function, ret *ssa.Return) bool) []Edge {
+	var out []Edge
+	for _, b := range fn.Blocks {
+		if len(b.Instrs) == 0 {
+			continue
+		}
+		ifi, ok := b.Instrs[len(b.Instrs)-1].(*ssa.If)
+		if !ok {
+			continue
+		}
+		cond, pol := StripNot(ifi.Cond)
+		idx := 0
+		call, ok := cond.(*ssa.Call)
+		if !ok {
+			ex, isEx := cond.(*ssa.Extract)
+			if !isEx {
+				continue
+			}
+			if call, ok = ex.Tuple.(*ssa.Call); !ok {
+				continue
+			}
+			idx = ex.Index
+		}
+		if only != nil && ssa.CallInstruction(call) != only {
+			continue
+		}
+		h := StaticFn(call)
+		if h == nil || h.Blocks == nil || h.Pkg == nil || fn.Pkg == nil || h.Pkg != fn.Pkg || h.Signature.Results().Len() <= idx || h.Signature.Results().Len() < 2 {
+			continue
+		}
+		if bt, ok := h.Signature.Results().At(idx).Type().Underlying().(*types.Basic); !ok || bt.Kind() != types.Bool {
+			continue
+		}
+		for _, val := range []bool{true, false} {
+			good, any := true, false
+			for _, hb := range h.Blocks {
+				if len(hb.Instrs) == 0 {
+					continue
+				}
+				ret, ok := hb.Instrs[len(hb.Instrs)-1].(*ssa.Return)
+				if !ok || len(ret.Results) <= idx {
+					continue
+				}
+				k, isC := ResolveCellLoad(ret.Results[idx], ret).(*ssa.Const)
+				if !isC || k.Value == nil {
+					good = false
+					break
+				}
+				if (k.Value.String() == "true") != val {
+					continue
+				}
+				any = true
+				if !holds(h, ret) {
+					good = false
+					break
+				}
+			}
+			if good && any {
+				succ := 1
+				if val == pol {
+					succ = 0
+				}
+				out = append(out, Edge{b, succ})
+			}
+		}
+	}
+	return out
+}
